@@ -237,6 +237,11 @@ func SimC13(c *CheckCtx, i int, r *Rng) error {
 		eps = all
 	}
 	args := proto.GenArgs{Entrypoint: spell(r, m, eps), Base: base}
+	if i%7 == 3 {
+		if AddIllTyped(r, m, names) >= 0 {
+			c.Env.Stats.Add("probe/ill-typed-package-world", 1)
+		}
+	}
 	if i%60 == 13 && c.Env.CgoUsable() {
 		if AddCgoFile(r, m) {
 			c.Env.Stats.Add("probe/cgo-world", 1)
